@@ -121,8 +121,16 @@ func RecoverPublicKey(signer types.Signer, tx types.Transaction) (PublicKeyI, er
 	sigHash := signer.Hash(&tx)
 	// normalize V to 0 or 1
 	var recoveryID byte
+	// one signature, one encoding: a typed transaction carries the recovery id itself (0 / 1), a legacy
+	// transaction 27 / 28 or the EIP-155 form; anything else is another byte string for the same signed
+	// transaction (its hash does not cover V) and would be a replayable twin
 	V := Vb.Uint64()
+	typed := tx.Type() != types.LegacyTxType
 	switch {
+	case typed && (!Vb.IsUint64() || V > 1):
+		return nil, types.ErrInvalidSig
+	case !typed && V < 27:
+		return nil, types.ErrInvalidSig
 	case V == 27 || V == 28:
 		recoveryID = byte(V - 27)
 	case V >= 35:
